@@ -44,7 +44,10 @@ RULE = ("cases = (method, plan, dialogue cut, fault schedule, pre-existing forei
         "once as exit status and as OSError, pf's enabled flag / tokens / anchor contents compared with before; plus signal "
         "sequences (SIGHUP/SIGPIPE/SIGINT/SIGTERM, repeated) delivered to real helper processes started with default "
         "dispositions, with os.setsid() succeeding and failing (EPERM, process-group leader), before the dialogue, "
-        "after STARTED and while the tear-down runs; a case is "
+        "after STARTED and while the tear-down runs; and the client side of the tear-down: the real FirewallClient "
+        "(constructor, setup, start, done) against the real firewall.main on the other end of its socketpair, the "
+        "helper's first tear-down command taking 0 s / 1 s / 6 s / 60 s / 15 min of virtual time, every wait / poll / "
+        "kill / terminate / send_signal of the client recorded (method and verbosity rotate with the seed); a case is "
         "non-trivial when at least one firewall command was issued; distinct = distinct (method, dialogue, "
         "faults, prelude)")
 MANIFEST = dict(
@@ -94,7 +97,9 @@ MANIFEST = dict(
                 "three moments (before the client has sent anything, session up, tear-down under way): SIGHUP/SIGPIPE "
                 "leave the helper alive and serving, SIGINT/SIGTERM are relayed to the client every time they arrive, the "
                 "rules are restored once the helper has ended by whatever route. "
-                "SIGKILL of the helper is outside (nothing can clean up)."),
+                "SIGKILL of the helper is outside (nothing can clean up). Client side: FirewallClient.done() is "
+                "driven for real against a helper whose restore takes virtual time; it must wait without a deadline and "
+                "never kill/terminate/signal the helper, and the rules must be as before when it returns (oracle only)."),
     technique="Lean 4 proof (partial-state invariant + frame, Hoare rules over a fault schedule, method-independent layered "
               "session argument) + in-process differential run of the real firewall.main with exhaustive single-fault "
               "enumeration",
@@ -1863,6 +1868,309 @@ def run_signals(ctx):
             ctx.violation(key, case=case, expected=exp, observed=obs, note=note, kind='ops')
 
 
+# ------------------------------------------------------------------ the client side of the tear-down, with time
+
+# A normal client exit lets the helper finish its restore: FirewallClient.done() closes the control channel
+# and waits for the helper for as long as the restore takes.  The real FirewallClient (constructor, setup,
+# start, done) is driven in this thread against a helper that is the REAL firewall.main running in another
+# thread on the other end of the client's own socketpair, with PyEnv behind it.  The helper's first tear-down
+# command takes `duration` seconds of *virtual* time (an `iptables -w` waiting for the xtables lock, a slow
+# pfctl).  The process object the client holds records every wait / poll / kill / terminate / send_signal;
+# a timed wait shorter than the duration raises TimeoutExpired, a kill stops the helper where it is (no
+# further command has any effect, as after SIGKILL).  client.time is a virtual clock as well.
+
+CLIENT_DURATIONS = [0, 1, 6, 60, 900]
+
+
+class HelperProc:
+    """What subprocess.Popen returns to FirewallClient: the helper thread plus a virtual clock."""
+
+    def __init__(self, owner, argv, sock):
+        import threading
+        self.owner = owner
+        self.argv = argv
+        self.pid = 424242
+        self.returncode = None
+        self.calls = []
+        self.killed_by = None
+        self.sock = sock.dup()           # the child's copy of its end of the socketpair
+        self.reached_teardown = threading.Event()
+        self.release = threading.Event()
+        self.finished = threading.Event()
+        self.eof_at = None
+        self.thread = threading.Thread(target=self._main, daemon=True)
+        self.thread.start()
+
+    # ---- the helper
+    def _main(self):
+        box = self.owner.box
+        firewall = box.m['firewall']
+        helpers = box.m['helpers']
+        rf = self.sock.makefile('rb')
+        wf = self.sock.makefile('wb')
+        old = firewall.setup_daemon
+        firewall.setup_daemon = lambda: (rf, wf)
+        rc = 0
+        try:
+            firewall.main(METHOD_MODULE[self.owner.method], False)
+        except helpers.Fatal:
+            rc = 99
+        except BaseException:  # noqa
+            rc = 1
+        finally:
+            firewall.setup_daemon = old
+            for fh in (rf, wf):
+                try:
+                    fh.close()
+                except (IOError, OSError, ValueError):
+                    pass
+            try:
+                self.sock.close()
+            except OSError:
+                pass
+            if self.killed_by is None:
+                self.returncode_real = rc
+            self.finished.set()
+            self.reached_teardown.set()
+
+    # ---- the process object
+    def _remaining(self):
+        """virtual seconds the helper still needs, once its tear-down has begun"""
+        if self.eof_at is None:
+            self.eof_at = self.owner.now
+        return max(0.0, self.eof_at + self.owner.duration - self.owner.now)
+
+    def _let_finish(self):
+        self.release.set()
+        self.finished.wait(20)
+        if self.returncode is None:
+            self.returncode = -9 if self.killed_by else getattr(self, 'returncode_real', 0)
+        return self.returncode
+
+    def _sync(self):
+        """wait (really) until the helper thread has either ended or is held at its first tear-down command"""
+        self.reached_teardown.wait(10)
+
+    def poll(self):
+        self.calls.append(('poll',))
+        if self.finished.is_set():
+            return self._let_finish()
+        if self.owner.channel_closed:
+            self._sync()
+            if self.finished.is_set() or self._remaining() <= 0:
+                return self._let_finish()
+        return None
+
+    def wait(self, timeout=None):
+        import subprocess
+        self.calls.append(('wait', timeout))
+        if not self.owner.channel_closed and not self.finished.is_set():
+            raise AssertionError('wait() before the control channel was closed would block for ever')
+        self._sync()
+        if self.finished.is_set():
+            return self._let_finish()
+        need = self._remaining()
+        if timeout is None or timeout >= need:
+            self.owner.now += need
+            return self._let_finish()
+        self.owner.now += timeout
+        raise subprocess.TimeoutExpired(self.argv, timeout)
+
+    def _signal(self, what):
+        self.calls.append((what,))
+        if not self.finished.is_set() and self.killed_by is None:
+            self.killed_by = what
+            self.owner.killed_while_restoring = self.owner.box.teardown_started and not self.finished.is_set()
+            self.release.set()
+            self.finished.wait(20)
+            self.returncode = -9
+
+    def kill(self):
+        self._signal('kill')
+
+    def terminate(self):
+        self._signal('terminate')
+
+    def send_signal(self, sig):
+        self._signal('send_signal(%s)' % (sig,))
+
+
+class ClientDoneScenario:
+    def __init__(self, box, case):
+        self.box = box
+        self.method = case['method']
+        self.duration = float(case['duration'])
+        self.now = 1000.0
+        self.channel_closed = False
+        self.killed_while_restoring = False
+        self.proc = None
+
+    # virtual `time` for sshuttle.client
+    def time_shim(self):
+        scen = self
+        import time as _time
+
+        class T:
+            def __getattr__(self, name):
+                return getattr(_time, name)
+
+            def time(self):
+                return scen.now
+
+            def monotonic(self):
+                return scen.now
+
+            def sleep(self, dt):
+                scen.now += max(0.0, float(dt))
+        return T()
+
+
+def run_client_done_case(case):
+    """case: dict(kind='client-done', method, duration, verbose).  Returns dict(problems, info)."""
+    import socket
+    import subprocess
+    import sshuttle.client as client
+    box = Sandbox()
+    scen = ClientDoneScenario(box, case)
+    py = PyEnv()
+    for argv in FOREIGN_PRELUDE[:4]:
+        py.run(argv, b'', foreign=True)
+    s0 = py.show()
+
+    class HeldRouter(Router):
+        def run(self, argv, stdin=b''):
+            pr = scen.proc
+            if pr is not None and box.teardown_started and not pr.release.is_set():
+                pr.reached_teardown.set()      # the first tear-down command: this is where the time goes
+                pr.release.wait(20)
+            if pr is not None and pr.killed_by is not None:
+                return 0, b'', b''             # a killed process does nothing any more
+            return Router.run(self, argv, stdin)
+
+    box.router = HeldRouter(py, None)
+    box.write_hosts(HOSTS0)
+    helpers = box.m['helpers']
+
+    class SubShim:
+        def __getattr__(self, name):
+            return getattr(subprocess, name)
+
+        def Popen(self, argv, stdout=None, stdin=None, env=None, preexec_fn=None, **kw):
+            scen.proc = HelperProc(scen, argv, stdout)
+            return scen.proc
+
+    saved = dict(sub=client.ssubprocess, time=client.time, admin=client.is_admin_user, argv0=sys.argv[0])
+    problems = []
+    done_exc = None
+    fc = None
+    try:
+        client.ssubprocess = SubShim()
+        client.time = scen.time_shim()
+        client.is_admin_user = lambda: True
+        helpers.verbose = int(case.get('verbose') or 0)
+        sys.stderr = io.StringIO()
+        box.use_pf(scen.method)
+        box.teardown_started = False
+        fc = client.FirewallClient(METHOD_MODULE[scen.method], False)
+        fc.setup([(socket.AF_INET, '1.2.3.0', 24, 0, 0), (socket.AF_INET6, '2404:6800:4004:80c::', 64, 0, 0)],
+                 [(socket.AF_INET, '1.2.3.66', 32, 8080, 8080)], [(socket.AF_INET, '1.2.3.33')],
+                 12300, 12301, 12302, 12303, False, None, None, '0x01')
+        fc.start()
+        during = py.show()
+        if during == s0:
+            raise RuntimeError('set-up changed nothing; the case would be vacuous')
+        # a normal exit of the client
+        real_close = fc.pfile.close
+
+        def closing():
+            real_close()
+            scen.channel_closed = True
+        fc.pfile.close = closing
+        try:
+            fc.done()
+        except helpers.Fatal as e:
+            done_exc = 'Fatal: %s' % (str(e)[:80],)
+        except Exception as e:  # noqa
+            done_exc = '%s: %s' % (type(e).__name__, str(e)[:80])
+        pr = scen.proc
+        still_running = not pr.finished.is_set()
+        final_at_return = py.show()
+        pretty_at_return = py.pretty()
+        calls = list(pr.calls)
+        signalled = [c[0] for c in calls if c[0] not in ('wait', 'poll')]
+        where = 'tear-down takes %gs; the client called %s; done() %s' % (
+            scen.duration, ', '.join('%s(%s)' % (c[0], ', '.join(repr(x) for x in c[1:])) for c in calls) or 'nothing',
+            'raised ' + done_exc if done_exc else 'returned')
+        if signalled:
+            problems.append(('C04:client:done-kills-helper-during-restore',
+                             'a normal client exit lets the helper finish: wait() without a deadline, no kill / '
+                             'terminate / signal',
+                             '%s; configuration afterwards: %s' % (', '.join(signalled),
+                                                                 ' || '.join(pretty_at_return) or '(builtin chains only)'),
+                             where))
+        elif final_at_return != s0 or still_running:
+            problems.append(('C04:client:done-returns-before-rules-are-restored',
+                             'configuration after done() == configuration before setup',
+                             'helper %s; configuration: %s' % ('still restoring' if still_running else 'ended',
+                                                               ' || '.join(pretty_at_return) or '(builtin chains only)'),
+                             where))
+        elif done_exc:
+            problems.append(('C04:client:done-fails', 'done() returns', done_exc, where))
+        info = 'method=%s duration=%gs calls=%s restored=%s%s' % (
+            scen.method, scen.duration, [c[0] + (repr(c[1:]) if c[1:] else '') for c in calls],
+            final_at_return == s0, (' done: ' + done_exc) if done_exc else '')
+        return dict(problems=problems, info=info)
+    finally:
+        pr = scen.proc
+        if pr is not None and not pr.finished.is_set():
+            if pr.killed_by is None:
+                pr.killed_by = 'cleanup'
+            pr.release.set()
+            try:
+                if fc is not None:
+                    fc.pfile.close()
+            except Exception:  # noqa
+                pass
+            pr.finished.wait(10)
+        client.ssubprocess = saved['sub']
+        client.time = saved['time']
+        client.is_admin_user = saved['admin']
+        sys.stderr = box.stderr
+        helpers.verbose = 0
+        box.close()
+
+
+def client_done_cases(ctx):
+    """Every tear-down duration on every run; method and verbosity rotate with the seed."""
+    methods = ['nat', 'tproxy', 'nft']
+    seed = _VSTATE['seed']
+    durs = list(CLIENT_DURATIONS)
+    if ctx.thorough:
+        durs = durs + [4.9, 5, 5.1, 30, 3600]
+    for i, d in enumerate(durs):
+        reps = methods if ctx.thorough else [methods[(i + seed) % 3]]
+        for m in reps:
+            yield dict(kind='client-done', method=m, duration=d, verbose=next_verbosity())
+
+
+def run_client_done(ctx):
+    for case in client_done_cases(ctx):
+        try:
+            r = run_client_done_case(case)
+        except RuntimeError as e:
+            ctx.notes.append('client-done case %r could not be set up: %s' % (case, e))
+            ctx.hist('client-done:not-run')
+            continue
+        ctx.count()
+        ctx.mark(('client-done', case['method'], case['duration']), True)
+        ctx.hist('client-done:%gs' % case['duration'])
+        ctx.hist('verbosity:%d' % case['verbose'])
+        if len(ctx.samples) < 10:
+            ctx.samples.append(dict(kind='client-done', real_code=r['info']))
+        for key, exp, obs, note in r['problems']:
+            ctx.violation(key, case=case, expected=exp, observed=obs, note=note, kind='ops')
+
+
 # ------------------------------------------------------------------ pf (model unvalidated; kept modest)
 
 PF_DIALOGUE = ['ROUTES\n', '2,24,0,1.2.3.0,0,0\n', '2,32,1,1.2.3.66,8080,8080\n', '10,64,0,2404:6800:4004:80c::,0,0\n',
@@ -2041,6 +2349,7 @@ def run(ctx):
     _VSTATE['i'] = 0
     _VSTATE['seed'] = int(getattr(ctx, 'seed', 0) or 0)
     run_signals(ctx)
+    run_client_done(ctx)
     box = Sandbox()
     lean = None
     try:
@@ -2123,6 +2432,9 @@ def validate_env_in_netns(ctx, samples):
 
 
 def replay(ctx, rep):
+    if rep['case'].get('kind') == 'client-done':
+        r = run_client_done_case(rep['case'])
+        return bool(r['problems']), r['info'] + ''.join('; %s: %s' % (p[0], p[2]) for p in r['problems'])
     if rep['case'].get('kind') == 'signal':
         r = run_signal_case(rep['case'])
         return bool(r['problems']), r['info'] + ''.join('; %s: %s' % (p[0], p[2]) for p in r['problems'])
